@@ -261,10 +261,59 @@ def r16_5(ctx: Ctx, rep: Report) -> None:
             rep.violation(f.qualname, "body", "copy() must be Class(**data()) with the flag off (new identifier, everything else from the exported data)", where(f))
 
 
+def _restored_after_parse(ctx: Ctx) -> Set[str]:
+    """Field attributes whose uuid AND note are restored from the exported dict of the same key after
+    `self.line = line` in Ace.__init__ (directly, or in a method invoked after it on every normal path)."""
+    init = ctx.func("Ace.__init__")
+    cfg = ctx.cfg(init)
+    kw = init.node.args.kwarg.arg if init.node.args.kwarg else "kwargs"
+    line_nodes = [n for n in cfg.live if n.kind == "stmt" and isinstance(n.ast, ast.Assign) and any(isinstance(t, ast.Attribute) and src(t) == "self.line" for t in n.ast.targets)]
+    if not line_nodes:
+        return set()
+    ln = line_nodes[-1]
+    funcs: List[Func] = []
+    for n in cfg.live:
+        if n.kind == "stmt" and n.ast is not None and n is not ln and ln in cfg.dominators().get(n, set()) and cfg.all_paths_pass(ln, cfg.exit, lambda x, n=n: x is n, labels_avoid=("exc",)):
+            for x in ast.walk(n.ast):
+                if isinstance(x, ast.Call) and isinstance(x.func, ast.Attribute) and src(x.func.value) == "self":
+                    m = init.cls.lookup_method(x.func.attr)
+                    if m is not None and any(k.arg is None and src(k.value) == kw for k in x.keywords):
+                        funcs.append(m)
+    out: Set[str] = set()
+    for m in funcs:
+        mkw = m.node.args.kwarg.arg if m.node.args.kwarg else "kwargs"
+        pairs: Dict[str, List[Tuple[str, str]]] = {}
+        for n in own_nodes(m.node):
+            if isinstance(n, ast.Assign) and isinstance(n.targets[0], ast.Name) and isinstance(n.value, (ast.Tuple, ast.List)):
+                lst = []
+                for e in n.value.elts:
+                    if isinstance(e, ast.Tuple) and len(e.elts) == 2 and isinstance(e.elts[0], ast.Attribute) and src(e.elts[0].value) == "self":
+                        c = e.elts[1]
+                        if isinstance(c, ast.Call) and src(c.func) == f"{mkw}.get" and c.args and isinstance(c.args[0], ast.Constant):
+                            lst.append((e.elts[0].attr, c.args[0].value))
+                if lst:
+                    pairs[n.targets[0].id] = lst
+        for n in own_nodes(m.node):
+            if isinstance(n, ast.For) and isinstance(n.iter, ast.Name) and n.iter.id in pairs and isinstance(n.target, ast.Tuple) and len(n.target.elts) == 2:
+                ov, dv = src(n.target.elts[0]), src(n.target.elts[1])
+                stored = set()
+                for x in ast.walk(n):
+                    if isinstance(x, ast.Assign):
+                        for t in x.targets:
+                            if isinstance(t, ast.Attribute) and src(t.value) == ov and t.attr in ("uuid", "note", "_uuid") and mentions(x.value, dv) or (isinstance(t, ast.Attribute) and src(t.value) == ov and t.attr in ("uuid", "note", "_uuid") and any(isinstance(y, ast.Name) for y in ast.walk(x.value))):
+                                stored.add(t.attr.lstrip("_"))
+                if {"uuid", "note"} <= stored:
+                    for attr, key in pairs[n.iter.id]:
+                        if attr.lstrip("_") == key:
+                            out.add(attr)
+    return out
+
+
 def r16_7(ctx: Ctx, rep: Report) -> None:
     rep.rule("R16.7")
     ls = ctx.func("Ace.line.setter")
     base = ctx.cls("Base")
+    restored = _restored_after_parse(ctx)
     n_fields = 0
     for n in own_nodes(ls.node):
         if not (isinstance(n, ast.Assign) and isinstance(n.targets[0], ast.Attribute) and src(n.targets[0].value) == "self"):
@@ -294,6 +343,8 @@ def r16_7(ctx: Ctx, rep: Report) -> None:
                                 keeps.add(kk.arg)
         if keeps == {"uuid", "note"}:
             rep.ok(f"Ace.line setter: {attr}", "the new field object receives uuid and note of the one it replaces", where=where(ls, n))
+        elif attr in restored:
+            rep.ok(f"Ace.line setter: {attr}", f"rebuilt from text, then Ace.__init__ restores its uuid and note from the exported {attr.lstrip('_')!r} data on every normal path", where=where(ls, n))
         else:
             rep.violation(
                 "Ace.line.setter",
